@@ -276,26 +276,28 @@ fn phases(thorough: bool, c16: bool) -> Vec<Phase> {
         bounds: json!({"shapes": format!("for n in {:?}: 1..n, the centred list -n/2..n/2 (with +0.0 and with -0.0), three variants with periodic duplicate runs and one with a long run; for n = 33, 34, 65, 66 (100, 129 thorough) every list with a single duplicated end at each position", threshold_sizes(thorough).into_iter().filter(|&n| n <= if thorough { 257 } else { 129 }).collect::<Vec<_>>()),
                        "histories": "every history of length <= 2 (<= 3 for n <= 17) over the full order-complete alphabet A(ends)"}),
     });
-    if c16 {
-        // a NaN query needs a history around it: [x1, NaN, x2] and [x1, x2, NaN, x3] on big functions, reduced alphabet
+    {
+        // three-step histories on big functions over the reduced alphabet (C16: a NaN query needs a history around it: [x1, NaN, x2])
         let units: Vec<HUnit<Probe>> = [33usize, 64, 65, 66, 100, 129]
             .into_iter()
             .map(|n| {
                 let e = iota(n);
                 let mut u = make_unit_with(e.clone(), probe_pw(&e), 3, false, "Probe", reduced_alphabet(&e));
-                u.alpha.push(f64::NAN);
-                u.direct.push(guard(|| u.pw.evaluate(f64::NAN)).ok());
+                if c16 {
+                    u.alpha.push(f64::NAN);
+                    u.direct.push(guard(|| u.pw.evaluate(f64::NAN)).ok());
+                }
                 u
             })
             .collect();
         let n = units.len();
         v.push(Phase {
-            name: "big-functions-nan-histories",
+            name: "big-functions-three-step-histories",
             units: n,
             split: 2,
-            body: hist_body(Arc::new(units), true),
-            classes: classes(true).into_iter().map(|(n, _)| (n, false)).collect(),
-            bounds: json!({"shapes": "1..n for n = 33, 64, 65, 66, 100, 129", "histories": "every history of length <= 3 over the reduced alphabet (every end, one point per cell, one below, one above) plus NaN"}),
+            body: hist_body(Arc::new(units), c16),
+            classes: classes(c16).into_iter().map(|(n, _)| (n, false)).collect(),
+            bounds: json!({"shapes": "1..n for n = 33, 64, 65, 66, 100, 129", "histories": "every history of length <= 3 over the reduced alphabet (every end, one point per cell, one below, one above; C16: plus NaN)"}),
         });
     }
     v.push(debruijn_phase(thorough, c16));
